@@ -21,6 +21,10 @@ def one(sid):
     meta = json.load(open(os.path.join(d, "meta.json")))
     checks = meta.get("caught_by") or []
     r = subprocess.run([os.path.join(V, "tools", "trymut_alt.sh"), os.path.join(d, "patch.diff")] + checks, capture_output=True, text=True)
+    if "does not apply" in r.stdout + r.stderr and meta.get("base"):
+        # written for an older commit of /repo and not ported: try it there
+        r = subprocess.run([os.path.join(V, "tools", "trymut_alt.sh"), os.path.join(d, "patch.diff")] + checks, capture_output=True, text=True,
+                           env=dict(os.environ, BASE=meta["base"]))
     res, cur = {}, None
     for l in r.stdout.split("\n"):
         if l.startswith("== "):
